@@ -44,6 +44,7 @@ type Ctx struct {
 	ruleN    map[string]int
 	stats    map[string]int
 	wsCache  *WS
+	optional map[string]bool
 }
 
 func newCtx(p *Prog, r *Roles, property string) *Ctx {
@@ -53,6 +54,17 @@ func newCtx(p *Prog, r *Roles, property string) *Ctx {
 // rule declares a rule (id + one-line statement); every declared rule must end
 // up with at least `floor` obligations (vacuity floor), checked in finish().
 func (c *Ctx) rule(id, doc string) { c.ruleDoc[id] = doc }
+
+// ruleOpt declares a rule whose expected instance count on a correct tree may be
+// zero (a "no X may exist" rule): no vacuity floor. Its liveness is shown by the
+// mutant corpus in the thorough tier.
+func (c *Ctx) ruleOpt(id, doc string) {
+	c.ruleDoc[id] = doc
+	if c.optional == nil {
+		c.optional = map[string]bool{}
+	}
+	c.optional[id] = true
+}
 
 func (c *Ctx) add(rule string, st Status, construct, pos, detail string) {
 	c.ruleN[rule]++
@@ -91,6 +103,10 @@ func (c *Ctx) finish() {
 	}
 	sort.Strings(ids)
 	for _, id := range ids {
+		if c.ruleN[id] == 0 && c.optional[id] {
+			c.ok(id, "no instance", "-", "no construct of the kind this rule constrains exists in the current source")
+			continue
+		}
 		if c.ruleN[id] == 0 {
 			c.und(id, "vacuity", "-", "rule matched no construct in the current source (mechanism not found): "+c.ruleDoc[id])
 		}
